@@ -72,7 +72,7 @@ def lake_build(targets):
     return r.returncode == 0, r.stdout.decode(errors='replace')
 
 # ---------------------------------------------------------------- running a stream
-def run_impl(binary, inp_path, exp_path, per_case_timeout=10.0, env=None, rlimit_as_mb=None):
+def run_impl(binary, inp_path, exp_path, per_case_timeout=10.0, env=None, rlimit_as_mb=None, stderr_full=False):
     """Run the real crate over all lines in a worker process.  A dead worker (stack overflow, abort) or a worker that
     produces no answer for `per_case_timeout` seconds (hang) is restarted after the killing line, which gets the
     answer `crash` / `timeout`."""
@@ -89,7 +89,9 @@ def run_impl(binary, inp_path, exp_path, per_case_timeout=10.0, env=None, rlimit
             import resource
             lim = int(rlimit_as_mb) * 1024 * 1024
             pre = lambda: resource.setrlimit(resource.RLIMIT_AS, (lim, lim))
-        p = subprocess.Popen([binary, 'run'], stdin=subprocess.PIPE, stdout=subprocess.PIPE, stderr=subprocess.DEVNULL, env=env or ENV, preexec_fn=pre)
+        # fault injection: stderr is /dev/full (every write fails with ENOSPC) - a host whose log device is full
+        errf = open('/dev/full', 'w') if (stderr_full and os.path.exists('/dev/full')) else subprocess.DEVNULL
+        p = subprocess.Popen([binary, 'run'], stdin=subprocess.PIPE, stdout=subprocess.PIPE, stderr=errf, env=env or ENV, preexec_fn=pre)
         chunk = ('\n'.join(lines[start:]) + '\n').encode()
         def feed():
             try: p.stdin.write(chunk); p.stdin.close()
@@ -314,6 +316,9 @@ def main():
             else:
                 # source shape outside the translator's subset: NOT a violation; that `…Source` module is not claimed in this run
                 cfg['modules'] = [m for m in cfg['modules'] if m != module]
+        # the capstone: property theorems restated about the generated functions only (needs every translation of this run)
+        if cfg.get('srcspec') and {'SrcInterp', 'SrcOptimizer', 'SrcValidate', 'SrcOrder'} <= done and 'SlacProps.SourceSpec' not in cfg['modules']:
+            cfg['modules'].append('SlacProps.SourceSpec')
     ok, out = lake_build(['driver'] + cfg['modules'])
     proof_ok = ok
     if not ok:
@@ -353,7 +358,7 @@ def main():
             body = open(inp).read(); open(inp, 'w').write('\n'.join(clines) + ('\n' if clines else '') + body)
         ts = time.time()
         senv = dict(ENV, TZ=st['tz']) if st.get('tz') else ENV
-        lines, exp, crashes = run_impl(bins[build], inp, os.path.join(workdir, f'{name}-{build}.exp'), st.get('case_timeout', 10.0), env=senv, rlimit_as_mb=st.get('rlimit_as_mb'))
+        lines, exp, crashes = run_impl(bins[build], inp, os.path.join(workdir, f'{name}-{build}.exp'), st.get('case_timeout', 10.0), env=senv, rlimit_as_mb=st.get('rlimit_as_mb'), stderr_full=st.get('stderr_full', False))
         if st.get('repeat_process'):
             # a second, fresh process (new hasher seeds) evaluating the same calls in REVERSED order (another call history)
             rinp = os.path.join(workdir, f'{name}-{build}.rev.in'); open(rinp, 'w').write('\n'.join(reversed(lines)) + '\n')
